@@ -110,6 +110,18 @@ def run_family(run, fam, cases, known_classes):
             if len(run.corr_breaks) < 20:
                 run.corr_breaks.append((fam.name, case, il, mpart))
     st["nontrivial"] = len(seen_nt)
+    # input distribution (what the generator actually produced) and outcome classes, for the evidence file
+    from collections import Counter
+    ops, outs, sizes = Counter(), Counter(), Counter()
+    step = max(1, len(cases) // 20000)
+    for case, il in list(zip(cases, impl))[::step]:
+        parts = [p.strip() for p in case.split(";") if p.strip()]
+        sizes[min(len(parts), 12)] += 1
+        for p in parts[1:]:
+            ops[p.split()[0] if p.split() else "?"] += 1
+        outs[(il or "MISSING").split(" ")[0][:12]] += 1
+    st["distribution"] = {"sampled_every": step, "parts_per_case": dict(sorted(sizes.items())),
+                          "op_kinds": dict(ops.most_common(40)), "outcome_classes": dict(outs.most_common(12))}
     run.cov["evaluations"] += len(cases)
     run.cov["distinct_nontrivial"] += len(seen_nt)
     for c, i in list(zip(cases, impl))[:: max(1, len(cases) // 3)][:3]:
